@@ -1,10 +1,11 @@
 /-
 C19 model: gpython's import machinery, transliterated from
 
-* `py/import.go`   `ImportModuleLevelObject` (store → registered Go implementation → sys.path search,
-                   compile, run; a failed run un-registers the module – fix 9295ec3; a module that
-                   cannot be found is ImportError – fix 4fc8c53),
-* `py/module.go`   `ModuleStore.NewModule` (globals copied from the implementation, methods, `__name__`,
+* `py/import.go`   `ImportModuleLevelObject` (level ≠ 0 ⇒ SystemError before anything else – fix ac022b1;
+                   store → registered Go implementation → sys.path search, compile, run; a failed run
+                   un-registers the module – fix 9295ec3; a module that cannot be found is ImportError –
+                   fix 4fc8c53).  Dotted names are not modelled beyond the failing lookup (C19-K01),
+* `py/module.go`   `ModuleStore.NewModule` (globals copied from the implementation (`Dict.copy`), methods, `__name__`,
                    `__doc__`, `__package__`, `__file__`; **registered in the store before any code runs**),
                    `GetModule`,
 * `stdlib/stdlib.go` `ModuleInit` (NewModule, *then* RunCode), `ResolveAndCompile`/`resolveRunPath`
@@ -32,12 +33,13 @@ deriving DecidableEq, Repr, Inhabited
 
 /-- Python exception classes the modelled code can raise -/
 inductive Err where
-  | importError | attributeError | nameError | typeError | syntaxError
+  | importError | attributeError | nameError | typeError | syntaxError | systemError
 deriving DecidableEq, Repr, Inhabited
 
 def Err.py : Err → String
   | .importError => "ImportError" | .attributeError => "AttributeError"
   | .nameError => "NameError" | .typeError => "TypeError" | .syntaxError => "SyntaxError"
+  | .systemError => "SystemError"
 
 /-- why a run stopped: a Python exception, or the model's fuel ran out (never happens
 with enough fuel: theorem `import_terminates`) -/
@@ -59,12 +61,16 @@ def Dict.erase {α} (d : Dict α) (k : String) : Dict α := d.filter (fun p => p
 
 def Dict.keys {α} (d : Dict α) : List String := d.map (·.1)
 
+/-- Go `StringDict.Copy`: `for k, v := range d { e[k] = v }` into a fresh map -/
+def Dict.copy {α} (d : Dict α) : Dict α := d.foldl (fun e p => e.set p.1 p.2) []
+
 /-- simple statements of a module body -/
 inductive Simple where
   | imp (m : String)                                  -- import m
   | impAs (m n : String)                              -- import m as n
   | from_ (m : String) (items : List (String × String)) -- from m import a as b, c as d   (b = a when no `as`)
   | star (m : String)                                 -- from m import *
+  | rel (m a : String)                                -- from .m import a   (`m` may be empty: from . import a)
   | bind (x : String) (v : Int)                       -- x = v
   | setAll (l : List String)                          -- __all__ = [...]
   | mutate (n a : String) (v : Int)                   -- n.a = v
@@ -194,6 +200,7 @@ def execSimple (env : Env) (imp : ImpFn) (cur : Nat) (s : Simple) (st : St) : St
     match imp m st with
     | (st, .error f) => (st, some f)
     | (st, .ok id) => importStar env (st.globalsOf id) cur st
+  | .rel _ _ => (st, some (.raise .systemError))      -- level ≠ 0: "Relative import not supported yet"
   | .bind x v => (st.setGlobal cur x (.int v), .none)
   | .setAll l => (st.setGlobal cur "__all__" (.names l), .none)
   | .mutate n a v =>
@@ -233,7 +240,7 @@ def moduleInit (env : Env) (imp : ImpFn) (name : String) (g0 : Dict Val) (code :
 
 /-- the globals `NewModule` gives a module -/
 def initGlobals (name : String) (file : Option String) (impl : GoImpl) : Dict Val :=
-  let g := impl.methods.foldl (fun g m => g.set m .fn) impl.globals
+  let g := impl.methods.foldl (fun g m => g.set m .fn) impl.globals.copy     -- instanceGlobals: Globals.Copy()
   let g := ((g.set "__name__" (.str name)).set "__doc__" (.str "")).set "__package__" .none
   match file with
   | some f => g.set "__file__" (.str f)
@@ -275,6 +282,85 @@ def runScripts (env : Env) (fuel : Nat) : List Body → Nat → St → St × Lis
   | b :: rest, i, st =>
     let (st, r) := runScript env fuel s!"s/s{i}.py" b st
     let (st, rs) := runScripts env fuel rest (i + 1) st
+    (st, r :: rs)
+
+/-! ### the same machinery with the ORDER of the effects of one module load as a parameter
+
+`extract/importorder` regenerates `GPy.C19.Generated.orders` from `py/module.go` (`NewModule`),
+`stdlib/stdlib.go` (`ModuleInit`), `py/run.go` (`RunCode`) and `py/import.go`
+(`ImportModuleLevelObject`): the effects on the module store in source order, calls inlined.
+`importModuleO Generated.orders` is the model the driver runs; `Proofs.importModuleO_canonical`
+shows that with `canonicalOrders` it is `importModule`, and `Props.generated_order_is_canonical`
+is the obligation that fails when the source no longer registers a module before running it. -/
+
+/-- the effects of one module load on the store -/
+inductive Effect where
+  | register      -- `store.modules[name] = m`                        (NewModule)
+  | runCode       -- `ctx.RunCode(code, module.Globals, ...)`          (ModuleInit)
+  | unregister    -- `ctx.Store().removeModule(name)` in the `err != nil` branch that follows (ImportModuleLevelObject)
+deriving DecidableEq, Repr, Inhabited
+
+structure Orders where
+  moduleInit : List Effect     -- `ModuleInit` with `NewModule` inlined (also what `RunFile` of a script does)
+  importGo : List Effect       -- `ImportModuleLevelObject`, registered-implementation branch
+  importFile : List Effect     -- `ImportModuleLevelObject`, sys.path branch (`RunCode` → `ModuleInit` inlined)
+deriving DecidableEq, Repr, Inhabited
+
+/-- the order the hand-written `moduleInit` / `loadModule` above have -/
+def canonicalOrders : Orders :=
+  { moduleInit := [.register, .runCode],
+    importGo := [.register, .runCode, .unregister],
+    importFile := [.register, .runCode, .unregister] }
+
+/-- execute the effects in the given order on the freshly allocated module object `id`.  An error
+of the code skips the remaining effects; the `unregister` handler acts iff it follows the failing call. -/
+def runEffects (env : Env) (imp : ImpFn) (name : String) (id : Nat) (code : Option Body) :
+    List Effect → St → St × Option Fail
+  | [], st => (st, .none)
+  | .register :: es, st =>
+    runEffects env imp name id code es (({ st with store := st.store.set name id } : St).emit (.created id name))
+  | .runCode :: es, st =>
+    match code with
+    | .none => runEffects env imp name id code es st
+    | some body =>
+      match execBody env imp id body (st.emit (.ran id name)) with
+      | (st, some f) =>
+        if es.contains .unregister then (({ st with store := st.store.erase name } : St).emit (.failed name), some f)
+        else (st, some f)
+      | (st, .none) => runEffects env imp name id code es (st.emit (.finished id name))
+  | .unregister :: es, st => runEffects env imp name id code es st
+
+/-- allocate the module object (`m := &Module{...}`), then the effects in order -/
+def loadO (order : List Effect) (env : Env) (imp : ImpFn) (name : String) (g0 : Dict Val) (code : Option Body) (st : St) :
+    St × Except Fail Nat :=
+  let id := st.heap.length
+  match runEffects env imp name id code order { st with heap := st.heap ++ [({ name := name, g := g0 } : ModObj)] } with
+  | (st, some f) => (st, .error f)
+  | (st, .none) => (st, .ok id)
+
+def importModuleO (o : Orders) (env : Env) : Nat → ImpFn
+  | fuel, name, st =>
+    match st.store.get name with
+    | some id => (st.emit (.hit id name), .ok id)
+    | none =>
+      match fuel with
+      | 0 => (st, .error .fuel)
+      | fuel + 1 =>
+        match env.goMods.get name with
+        | some impl => loadO o.importGo env (importModuleO o env fuel) name (initGlobals name .none impl) impl.body st
+        | none =>
+          match resolve env.dirs 0 name with
+          | none => (st, .error (.raise .importError))
+          | some (_, .bad) => (st, .error (.raise .syntaxError))
+          | some (file, .code body) =>
+            loadO o.importFile env (importModuleO o env fuel) name (initGlobals name (some file) {}) (some body) st
+
+def runScriptsO (o : Orders) (env : Env) (fuel : Nat) : List Body → Nat → St → St × List (Except Fail Nat)
+  | [], _, st => (st, [])
+  | b :: rest, i, st =>
+    let (st, r) := loadO o.moduleInit env (importModuleO o env fuel) "__main__"
+      (initGlobals "__main__" (some s!"s/s{i}.py") {}) (some b) st
+    let (st, rs) := runScriptsO o env fuel rest (i + 1) st
     (st, r :: rs)
 
 /-- number of module names that could still be loaded: the termination measure -/
